@@ -100,9 +100,9 @@ theorem nextLoop_order (E : Env S) (hpos : PosW E) (fuel : Nat) : ∀ (k : Nat) 
           exact ⟨⟨hget, fun a ha => by cases ha⟩, ⟨hl, hget⟩, rfl⟩) (fun he => by cases he) h
 
 /-- the order invariants after the prologue -/
-theorem prologue_oi (E : Env S) (hnd : RowsNodup E.G) (hrec : E.recursive = true) (hprod : Productive E) (hpos : PosW E)
+theorem prologue_oi (E : Env S) (hnd : RowsNodup E.G) (hst : StableAfter E) (hprod : Productive E) (hpos : PosW E)
     (fuel : Nat) (s' : St S) (h : prologue E fuel (St.empty E.G) = some s') : OI s' := by
-  have hc := prologue_cinv E hnd hrec hprod fuel s' h
+  have hc := prologue_cinv E hnd hst hprod fuel s' h
   have hpi := prologue_pi E hnd fuel s' h
   have hm := prologue_minv E hnd fuel _ _ (minv_empty E) h
   obtain ⟨hhm, hheap⟩ := prologue_headMin E fuel s' h
@@ -140,7 +140,7 @@ theorem prologue_oi (E : Env S) (hnd : RowsNodup E.G) (hrec : E.recursive = true
   · have := hhm nt c [] (hsingle nt c hcm) el hel
     exact (Cost.lt_false_iff _ _ (hfinQ nt el hel) (hc.fin nt c hcm)).mp this
 
-theorem next_order (E : Env S) (hnd : RowsNodup E.G) (hrec : E.recursive = true) (hprod : Productive E) (hpos : PosW E)
+theorem next_order (E : Env S) (hnd : RowsNodup E.G) (hst : StableAfter E) (hprod : Productive E) (hpos : PosW E)
     (fuel : Nat) (g : Gen S) (r : Gen S × Option Prog) (hgc : GC E g) (hgo : GO E g)
     (hfresh : g.started = false → g.st = St.empty E.G ∧ g.frame = none) (h : next E fuel g = some r) : GO E r.1 := by
   unfold next at h
@@ -156,8 +156,8 @@ theorem next_order (E : Env S) (hnd : RowsNodup E.G) (hrec : E.recursive = true)
       · cases h
       · next s hp =>
         rw [hst0] at hp
-        have hc : CInv E s := prologue_cinv E hnd hrec hprod fuel s hp
-        have hs : OI s := prologue_oi E hnd hrec hprod hpos fuel s hp
+        have hc : CInv E s := prologue_cinv E hnd hst hprod fuel s hp
+        have hs : OI s := prologue_oi E hnd hst hprod hpos fuel s hp
         have hlen := (prologue_pi E hnd fuel s hp).len E.G.start
         exact nextLoop_order E hpos fuel _ _ _ _ _ _ hc hs (fun fr he => by cases he) (fun _ => by omega) h
 
@@ -181,7 +181,7 @@ theorem go_new (E : Env S) : GO E (Gen.new E.G) := by
     fun fr he => (by cases he), fun _ => Or.inr (by rw [hcl]; exact Nat.zero_le _)⟩
 
 /-- the order invariant along `take` from a generator that satisfies it -/
-theorem take_order (E : Env S) (hnd : RowsNodup E.G) (hrec : E.recursive = true) (hprod : Productive E) (hpos : PosW E) (fuel : Nat) :
+theorem take_order (E : Env S) (hnd : RowsNodup E.G) (hst : StableAfter E) (hprod : Productive E) (hpos : PosW E) (fuel : Nat) :
     ∀ (k : Nat) (g : Gen S) (acc : List Prog) (r : Gen S × List Prog × Bool), GC E g → GO E g →
       (g.started = false → g.st = St.empty E.G ∧ g.frame = none) → take E fuel k g acc = some r → GO E r.1 := by
   intro k
@@ -192,10 +192,10 @@ theorem take_order (E : Env S) (hnd : RowsNodup E.G) (hrec : E.recursive = true)
     simp only [take] at h
     split at h
     · cases h
-    · next g' hn => cases h; exact next_order E hnd hrec hprod hpos fuel g _ hgc hgo hfresh hn
+    · next g' hn => cases h; exact next_order E hnd hst hprod hpos fuel g _ hgc hgo hfresh hn
     · next g' p hn =>
-      have hgo' := next_order E hnd hrec hprod hpos fuel g _ hgc hgo hfresh hn
-      obtain ⟨hgc', _, _, hy⟩ := next_cost E hnd hrec hprod fuel g _ hgc hfresh hn
+      have hgo' := next_order E hnd hst hprod hpos fuel g _ hgc hgo hfresh hn
+      obtain ⟨hgc', _, _, hy⟩ := next_cost E hnd hst hprod fuel g _ hgc hfresh hn
       have hst' : g'.started = true := (hy p rfl).1
       exact ih g' _ r hgc' hgo' (fun hs => by rw [hst'] at hs; cases hs) h
 
